@@ -13,7 +13,7 @@ Oracles (all evaluated on what the real code did):
       Go panic trace.
 Partial by nature: encoding/json, yaml.v3 and starlark are third-party decoders; they are
 covered by (1) and (3) only, not by any theorem."""
-import json, os, re, shutil, subprocess, time
+import hashlib, json, os, re, shutil, subprocess, time
 from concurrent.futures import ThreadPoolExecutor
 import vlib
 from vlib import hx, unhx
@@ -623,7 +623,7 @@ def model_guards(drv, contents):
 
 
 def diff_hint(o):
-    return o[0] + (":" + o[1] if o[0] != "ok" else " #%x" % (hash(o[1]) & 0xFFFF))
+    return o[0] + (":" + o[1] if o[0] != "ok" else " #" + hashlib.sha1(o[1].encode("utf-8", "surrogateescape")).hexdigest()[:4])
 
 
 def _quick_probe(n=40, seed=1):
@@ -942,7 +942,7 @@ ROBUST_NASTIES = [
 ]
 STAR_HANGS = [
     STAR_LOOP,
-    b"x = [i for i in range(1 << 40)]\ntarget(name = \"a\", command = \"true\")\n",
+    b"def g():\n    for i in range(1 << 40):\n        for j in range(1 << 40):\n            pass\ng()\n",
 ]
 
 
@@ -1181,8 +1181,29 @@ def cli_package(rng):
             t.pop("dependencies", None)
         if "tags" in t:
             t["tags"] = [x for x in t["tags"] if x != "testonly"] or ["t1"]
+        # no two outputs at overlapping places (output conflicts are C11's subject)
+        outs = []
+        for k, o in enumerate(t.get("outputs", [])):
+            if o.startswith("dir::"):
+                outs.append("dir::d%d_%d" % (i, k))
+            elif o.startswith("docker::"):
+                outs.append("docker::img%d:%d" % (i, k))
+            elif o.startswith("file::"):
+                outs.append("file::f%d_%d.bin" % (i, k))
+            else:
+                outs.append("gen/out%d_%d.txt" % (i, k))
+        if outs:
+            t["outputs"] = outs
+        if "bin_output" in t:
+            t["bin_output"] = ("file::bin/t%d" if t["bin_output"].startswith("file::") else "bin/t%d") % i
+    seen = set(names)
+    als = []
     for a in d.get("aliases", []):
-        a["actual"] = ":" + rng.choice(names)
+        if a["name"] not in seen:
+            seen.add(a["name"])
+            als.append(dict(a, actual=":" + rng.choice(names)))
+    if "aliases" in d:
+        d["aliases"] = als
     return d
 
 
